@@ -106,6 +106,30 @@ class World:
         self.fresh.add(name)
         return 'A:' + name
 
+    def add_child(self, i):
+        """A new object attached UNDER an object of the root (not to the root itself): it is stored iff its parent is."""
+        names = self.names()
+        if not names:
+            return None
+        parent = names[i % len(names)]
+        self.n += 1
+        self.counter += 1
+        name = 'n%d' % self.n
+        ob = pobj.PObj(v=self.counter)
+        self.root[parent].child = ob
+        if not hasattr(self, 'kids'):
+            self.kids = {}
+        for k, p_ in list(self.kids.items()):
+            if p_ == parent:
+                del self.kids[k]              # replaced: no longer reachable
+                self.fresh.discard(k)
+        self.kids[name] = parent
+        self.obj[name] = ob
+        self.fresh.add(name)
+        if parent not in self.fresh:
+            self.dirty.add(parent)
+        return 'K:%s<%s' % (name, parent)
+
     def detach(self, i):
         names = self.names()
         if not names:
@@ -181,7 +205,9 @@ class World:
             return 'C!conflict'
         # stored: modified existing objects (reachable or not), new objects that are reachable, and new
         # objects that were added explicitly
-        self.last_stored = set(self.dirty) | set(n for n in self.fresh if n in self.work or n in self.explicit)
+        stored_fresh = set(n for n in self.fresh if n in self.work or n in self.explicit)
+        kids = getattr(self, 'kids', {})
+        self.last_stored = set(self.dirty) | stored_fresh | set(k for k, p_ in kids.items() if k in self.fresh and (p_ in self.dirty or p_ in stored_fresh))
         self.ever.update(self.last_stored)
         others = dict((n, self.committed[n]) for n in self.other_changed if n in self.committed)
         self.committed = dict(self.work)
@@ -228,6 +254,39 @@ class World:
         self.sps = []
         self.other_changed = set()
         return 'F:%s%s' % (phase, '<' if first else '>')
+
+    def unpicklable_commit(self):
+        """Commit that fails while the connection serialises its objects: a new object X refers to another new
+        object Y and, after it, holds a value that cannot be pickled."""
+        names = []
+        obs = []
+        for _ in range(2):
+            self.n += 1
+            self.counter += 1
+            names.append('n%d' % self.n)
+            obs.append(pobj.PObj(v=self.counter))
+        X, Y = obs
+        X.child = Y
+        X.bad = (lambda: 0)
+        self.root[names[0]] = X
+        self.obj[names[0]] = X
+        self.obj[names[1]] = Y
+        try:
+            self.tm.commit()
+            fail('commit of an object that cannot be pickled succeeded')
+        except Exception:
+            pass
+        self.tm.abort()
+        del X.bad
+        del X.child
+        self.work = dict(self.committed)
+        self.work_scalar = getattr(self, 'committed_scalar', None)
+        self.fresh = set()
+        self.dirty = set()
+        self.explicit = set()
+        self.sps = []
+        self.other_changed = set()
+        return 'F:pickle'
 
     # -- checks -------------------------------------------------------------
     def check_view(self, where):
